@@ -141,15 +141,350 @@ class AddLinear(Contract):
         kid = F.key.kid
         k = L.k
         new = L.var("new_count")
-        cells_done = [(0, k), (0, F.width)]
-        yield "done", F.forall(
-            cells_done,
-            lambda r, c: L.cur.cms(r, c) == z3.If(z3.And(c == COL(F, kid, r), F.pre.cms(r, c) < new), new, F.pre.cms(r, c)),
+        pre, cur = F.pre, L.cur
+        cells = [(0, F.depth), (0, F.width)]
+        yield "x-done", F.forall(
+            [(0, k), (0, F.width)],
+            lambda r, c: cur.cms(r, c) == z3.If(z3.And(c == COL(F, kid, r), pre.cms(r, c) < new), new, pre.cms(r, c)),
         )
-        yield "rest", F.forall(
-            [(0, F.depth), (0, F.width)], lambda r, c: z3.Implies(r >= k, L.cur.cms(r, c) == F.pre.cms(r, c))
+        yield "x-rest", F.forall(cells, lambda r, c: z3.Implies(r >= k, cur.cms(r, c) == pre.cms(r, c)))
+        # weak invariants: enough for the property-derived clauses, true for any sound update rule
+        yield "w-lower", F.forall([(0, k)], lambda r: cur.cms(r, COL(F, kid, r)) >= new)
+        yield "w-mono", F.forall(cells, lambda r, c: cur.cms(r, c) >= pre.cms(r, c))
+        yield "w-frame", F.forall(cells, lambda r, c: z3.Implies(c != COL(F, kid, r), cur.cms(r, c) == pre.cms(r, c)))
+        yield "w-upper", F.forall(
+            [(0, F.depth)],
+            lambda r: cur.cms(r, COL(F, kid, r)) <= z3.If(pre.cms(r, COL(F, kid, r)) >= new, pre.cms(r, COL(F, kid, r)), new),
+        )
+        yield "counters", z3.And(
+            cur.n_added_records(0) == L.entry.n_added_records(0), cur.n_added_records(1) == L.entry.n_added_records(1)
         )
 
     @property
     def loops(self):
         return {0: self._inv}
+
+
+@register
+class MergeLinear(Contract):
+    name = "countmin._merge_linear"
+    mode = "int"
+    modifies = ("cms", "n_added_records")
+    small_shapes = ({"depth": 1, "width": 1}, {"depth": 2, "width": 2})
+
+    def requires(self, F):
+        yield "ceiling", F.uint_maxval == MAX32
+        yield "cms.shape", z3.And(F.cms.shape[0] == F.depth, F.cms.shape[1] == F.width)
+        yield "other.shape", z3.And(F.other_cms.shape[0] == F.depth, F.other_cms.shape[1] == F.width)
+        yield "counters.len", z3.And(F.n_added_records.shape[0] >= 2, F.other_n_added_records.shape[0] >= 2)
+
+    @staticmethod
+    def cell(a, b, umax):
+        return z3.If(a + b > umax, umax, a + b)
+
+    def ensures(self, F):
+        cells = [(0, F.depth), (0, F.width)]
+        yield "x-cells", F.forall(cells, lambda r, c: F.post.cms(r, c) == self.cell(F.pre.cms(r, c), F.other_cms(r, c), F.uint_maxval))
+        yield "x-n_added", F.post.n_added_records(0) == wrap64(F.pre.n_added_records(0) + F.other_n_added_records(0))
+        yield "x-n_records", F.post.n_added_records(1) == wrap64(F.pre.n_added_records(1) + F.other_n_added_records(1))
+
+    def _outer(self, F, L):
+        k = L.k
+        yield "rows-done", F.forall([(0, k), (0, F.width)], lambda r, c: L.cur.cms(r, c) == self.cell(F.pre.cms(r, c), F.other_cms(r, c), F.uint_maxval))
+        yield "rows-rest", F.forall([(0, F.depth), (0, F.width)], lambda r, c: z3.Implies(r >= k, L.cur.cms(r, c) == F.pre.cms(r, c)))
+        yield "counters", z3.And(L.cur.n_added_records(0) == F.pre.n_added_records(0), L.cur.n_added_records(1) == F.pre.n_added_records(1))
+
+    def _inner(self, F, L):
+        j = L.k
+        row = L.var("row")
+        yield "row-range", z3.And(row >= 0, row < F.depth)
+        yield "rows-done", F.forall([(0, row), (0, F.width)], lambda r, c: L.cur.cms(r, c) == self.cell(F.pre.cms(r, c), F.other_cms(r, c), F.uint_maxval))
+        yield "row-done", F.forall([(0, j)], lambda c: L.cur.cms(row, c) == self.cell(F.pre.cms(row, c), F.other_cms(row, c), F.uint_maxval))
+        yield "row-rest", F.forall([(0, F.width)], lambda c: z3.Implies(c >= j, L.cur.cms(row, c) == F.pre.cms(row, c)))
+        yield "rows-rest", F.forall([(0, F.depth), (0, F.width)], lambda r, c: z3.Implies(r > row, L.cur.cms(r, c) == F.pre.cms(r, c)))
+        yield "counters", z3.And(L.cur.n_added_records(0) == F.pre.n_added_records(0), L.cur.n_added_records(1) == F.pre.n_added_records(1))
+
+    @property
+    def loops(self):
+        return {0: self._outer, 1: self._inner}
+
+
+# ======================================================================================
+# log counters (float64 treated as mathematical reals; POW / LN are uninterpreted with
+# instantiated axioms)
+# ======================================================================================
+from ..sem import POW, LN  # noqa: E402
+
+R = z3.RealVal
+
+
+def DEC(c, nr, base):
+    """decoded value of counter c (the documentation's formula)"""
+    return z3.If(c <= nr, z3.ToReal(c), (POW(base, z3.ToReal(c) - z3.ToReal(nr)) - 1) / (base - 1) + z3.ToReal(nr))
+
+
+def batch_ok(F, a):
+    return F.forall([(0, 2048)], lambda j: z3.And(a(j) >= 0, a(j) < 1))
+
+
+@register
+class Counter2Value(Contract):
+    name = "countmin._counter2value"
+    mode = "int"
+
+    def requires(self, F):
+        yield "base>1", F.base > 1
+
+    def ensures(self, F):
+        yield "spec", F.res == DEC(F.counter, F.num_reserved, F.base)
+
+
+@register
+class Rand(Contract):
+    name = "countmin._rand"
+    mode = "int"
+    modifies = ("rand_batch",)
+
+    def requires(self, F):
+        yield "batch.len", F.rand_batch.shape[0] == 2048
+        yield "ptr<=2048", F.rand_ptr <= 2048
+        yield "batch-in-[0,1)", batch_ok(F, F.pre.rand_batch)
+
+    def ensures(self, F):
+        p = F.rand_ptr
+        yield "next-ptr", F.res[1] == z3.If(p == 2048, 1, p + 1)
+        yield "draw", F.res[0] == z3.If(p == 2048, F.post.rand_batch(0), F.pre.rand_batch(p))
+        yield "no-refill-frame", z3.Implies(p != 2048, F.forall([(0, 2048)], lambda j: F.post.rand_batch(j) == F.pre.rand_batch(j)))
+        yield "batch-in-[0,1)", batch_ok(F, F.post.rand_batch)
+        yield "draw-in-[0,1)", z3.And(F.res[0] >= 0, F.res[0] < 1)
+
+
+def unit_step(F, c0, draw):
+    """counter after one unit add starting from c0 < ceiling (the law C06 states)"""
+    nr = F.num_reserved
+    return c0 + z3.If(c0 < nr, 1, z3.If(draw < POW(F.base, -(z3.ToReal(c0) - z3.ToReal(nr))), 1, 0))
+
+
+@register
+class LogCounter(Contract):
+    name = "countmin._log_counter"
+    mode = "int"
+    modifies = ("rand_nums",)
+
+    def requires(self, F):
+        yield "batch.len", F.rand_nums.shape[0] == 2048
+        yield "ptr<=2048", F.rand_ptr <= 2048
+        yield "batch-in-[0,1)", batch_ok(F, F.pre.rand_nums)
+        yield "base>1", F.base > 1
+        yield "reserved<ceiling", F.num_reserved < F.uint_maxval
+
+    def ghost_defs(self, F):
+        return [POW(F.base, R(0)) == 1]  # instance of the axiom b^0 = 1
+
+    def _draw(self, F, batch_after):
+        return z3.If(F.rand_ptr == 2048, batch_after(0), F.pre.rand_nums(F.rand_ptr))
+
+    def ensures(self, F):
+        c0, v, nr, umax = F.counter, F.value, F.num_reserved, F.uint_maxval
+        r0, r1 = F.res
+        yield "w-range", z3.And(r0 >= c0, r0 <= z3.If(c0 >= umax, c0, zmin(c0 + v, umax)))
+        yield "w-exact-reserved", z3.Implies(c0 + v <= nr + 1, r0 == c0 + v)
+        yield "w-reserved-floor", r0 >= zmin(c0 + v, nr + 1)
+        yield "w-absorbing", z3.Implies(c0 >= umax, z3.And(r0 == c0, r1 == F.rand_ptr))
+        yield "x-unit-step", z3.Implies(
+            z3.And(v == 1, c0 < umax),
+            z3.And(
+                r0 == unit_step(F, c0, self._draw(F, F.post.rand_nums)),
+                r1 == z3.If(c0 < nr, F.rand_ptr, z3.If(F.rand_ptr == 2048, 1, F.rand_ptr + 1)),
+            ),
+        )
+        yield "ptr<=2048", r1 <= 2048
+        yield "batch-in-[0,1)", batch_ok(F, F.post.rand_nums)
+
+    def _inv(self, F, L):
+        c0, nr, umax = F.counter, F.num_reserved, F.uint_maxval
+        k, c, ptr = L.k, L.var("counter"), L.var("rand_ptr")
+        yield "w-range", z3.And(c >= c0, c <= c0 + k, z3.Or(c <= umax, c == c0))
+        yield "w-exact-reserved", z3.Implies(c0 + k <= nr + 1, c == c0 + k)
+        yield "w-reserved-floor", c >= zmin(c0 + k, nr + 1)
+        yield "ptr<=2048", ptr <= 2048
+        yield "batch-in-[0,1)", batch_ok(F, L.cur.rand_nums)
+        yield "x-start", z3.Implies(k == 0, z3.And(c == c0, ptr == F.rand_ptr, F.forall([(0, 2048)], lambda j: L.cur.rand_nums(j) == F.pre.rand_nums(j))))
+        yield "x-unit-step", z3.Implies(
+            z3.And(k == 1, c0 < umax),
+            z3.And(
+                c == unit_step(F, c0, self._draw(F, L.cur.rand_nums)),
+                ptr == z3.If(c0 < nr, F.rand_ptr, z3.If(F.rand_ptr == 2048, 1, F.rand_ptr + 1)),
+            ),
+        )
+        yield "w-absorbing", z3.Implies(c0 >= umax, z3.And(c == c0, ptr == F.rand_ptr))
+
+    @property
+    def loops(self):
+        return {0: self._inv}
+
+
+@register
+class QueryLog16(_Query):
+    name = "countmin._query_log16"
+
+
+@register
+class QueryLog8(_Query):
+    name = "countmin._query_log8"
+
+
+class _AddLog(Contract):
+    mode = "int"
+    modifies = ("cms", "n_added_records", "buckets", "rand_nums")
+    ceiling = None
+    ghost_note = "m / new = minimum of the key's counters before / after the call (minimum of a finite set)"
+
+    def requires(self, F):
+        yield from table_requires(F, ceiling=self.ceiling)
+        yield "batch.len", F.rand_nums.shape[0] == 2048
+        yield "ptr<=2048", F.rand_ptr <= 2048
+        yield "batch-in-[0,1)", batch_ok(F, F.pre.rand_nums)
+        yield "base>1", F.base > 1
+        yield "reserved<ceiling", F.num_reserved < F.uint_maxval
+
+    def ghosts(self, F):
+        return [("m", z3.IntSort()), ("new", z3.IntSort())]
+
+    def ghost_defs(self, F):
+        return is_min(F, F.g.m, F.pre.cms, F.key.kid, F.uint_maxval) + [POW(F.base, R(0)) == 1]
+
+    def post_defs(self, F):
+        return is_min(F, F.g.new, F.post.cms, F.key.kid, F.uint_maxval)
+
+    def _draw(self, F):
+        return z3.If(F.rand_ptr == 2048, F.post.rand_nums(0), F.pre.rand_nums(F.rand_ptr))
+
+    def ensures(self, F):
+        kid, m, new, umax, v, nr = F.key.kid, F.g.m, F.g.new, F.uint_maxval, F.value, F.num_reserved
+        pre, post = F.pre, F.post
+        cells = [(0, F.depth), (0, F.width)]
+        yield "n_added", post.n_added_records(0) == wrap64(pre.n_added_records(0) + v)
+        yield "n_records", post.n_added_records(1) == pre.n_added_records(1)
+        yield "w-range", z3.And(new >= m, new <= z3.If(m >= umax, m, zmin(m + v, umax)))
+        yield "w-exact-reserved", z3.Implies(m + v <= nr + 1, new == m + v)
+        yield "w-reserved-floor", new >= zmin(m + v, nr + 1)
+        yield "w-mono", F.forall(cells, lambda r, c: post.cms(r, c) >= pre.cms(r, c))
+        yield "w-frame", F.forall(cells, lambda r, c: z3.Implies(c != COL(F, kid, r), post.cms(r, c) == pre.cms(r, c)))
+        yield "w-ceiling", F.forall(cells, lambda r, c: post.cms(r, c) <= umax)
+        yield "x-cells", F.forall(
+            cells, lambda r, c: post.cms(r, c) == z3.If(z3.And(c == COL(F, kid, r), pre.cms(r, c) < new), new, pre.cms(r, c))
+        )
+        yield "x-unit-step", z3.Implies(
+            z3.And(v == 1, m < umax),
+            z3.And(new == unit_step(F, m, self._draw(F)), F.res == z3.If(m < nr, F.rand_ptr, z3.If(F.rand_ptr == 2048, 1, F.rand_ptr + 1))),
+        )
+        yield "x-buckets", F.forall([(0, F.depth)], lambda r: post.buckets(r) == COL(F, kid, r))
+        yield "ptr<=2048", F.res <= 2048
+        yield "batch-in-[0,1)", batch_ok(F, post.rand_nums)
+
+    def _inv(self, F, L):
+        kid = F.key.kid
+        k = L.k
+        new = L.var("new_count")
+        pre, cur = F.pre, L.cur
+        cells = [(0, F.depth), (0, F.width)]
+        yield "x-done", F.forall(
+            [(0, k), (0, F.width)],
+            lambda r, c: cur.cms(r, c) == z3.If(z3.And(c == COL(F, kid, r), pre.cms(r, c) < new), new, pre.cms(r, c)),
+        )
+        yield "x-rest", F.forall(cells, lambda r, c: z3.Implies(r >= k, cur.cms(r, c) == pre.cms(r, c)))
+        yield "w-lower", F.forall([(0, k)], lambda r: cur.cms(r, COL(F, kid, r)) >= new)
+        yield "w-mono", F.forall(cells, lambda r, c: cur.cms(r, c) >= pre.cms(r, c))
+        yield "w-frame", F.forall(cells, lambda r, c: z3.Implies(c != COL(F, kid, r), cur.cms(r, c) == pre.cms(r, c)))
+        yield "w-upper", F.forall(
+            [(0, F.depth)],
+            lambda r: cur.cms(r, COL(F, kid, r)) <= z3.If(pre.cms(r, COL(F, kid, r)) >= new, pre.cms(r, COL(F, kid, r)), new),
+        )
+        yield "counters", z3.And(
+            cur.n_added_records(0) == L.entry.n_added_records(0), cur.n_added_records(1) == L.entry.n_added_records(1)
+        )
+
+    @property
+    def loops(self):
+        return {0: self._inv}
+
+
+@register
+class AddLog16(_AddLog):
+    name = "countmin._add_log16"
+    ceiling = 65535
+
+
+@register
+class AddLog8(_AddLog):
+    name = "countmin._add_log8"
+    ceiling = 255
+
+
+class _MergeLog(Contract):
+    """structural + reserved-range + saturation clauses are proved over reals; the rounding branch
+    (nearest counter) is covered by the bounded float stand-in of C09 (labelled bounded)."""
+
+    mode = "int"
+    modifies = ("cms", "n_added_records")
+    ceiling = None
+
+    def requires(self, F):
+        yield "ceiling", F.uint_maxval == self.ceiling
+        yield "cms.shape", z3.And(F.cms.shape[0] == F.depth, F.cms.shape[1] == F.width)
+        yield "other.shape", z3.And(F.other_cms.shape[0] == F.depth, F.other_cms.shape[1] == F.width)
+        yield "counters.len", z3.And(F.n_added_records.shape[0] >= 2, F.other_n_added_records.shape[0] >= 2)
+        yield "base>1", F.base > 1
+        yield "reserved<ceiling", F.num_reserved < F.uint_maxval
+
+    def ghost_defs(self, F):
+        x = z3.Real("powx")
+        # axiom b^x > 1 for b > 1, x > 0 (uninterpreted POW)
+        return [z3.ForAll([x], z3.Implies(x > 0, POW(F.base, x) > 1), patterns=[POW(F.base, x)])]
+
+    def cell(self, F, a, b, s):
+        nr, umax, base = F.num_reserved, F.uint_maxval, F.base
+        v = DEC(a, nr, base) + DEC(b, nr, base)
+        return z3.And(
+            z3.Implies(v <= z3.ToReal(nr), s == a + b),
+            z3.Implies(z3.And(v > z3.ToReal(nr), v >= z3.ToReal(F.max_count)), s == umax),
+        )
+
+    def ensures(self, F):
+        cells = [(0, F.depth), (0, F.width)]
+        yield "x-cells-reserved-and-saturated", F.forall(cells, lambda r, c: self.cell(F, F.pre.cms(r, c), F.other_cms(r, c), F.post.cms(r, c)))
+        yield "x-n_added", F.post.n_added_records(0) == wrap64(F.pre.n_added_records(0) + F.other_n_added_records(0))
+        yield "x-n_records", F.post.n_added_records(1) == wrap64(F.pre.n_added_records(1) + F.other_n_added_records(1))
+
+    def _outer(self, F, L):
+        k = L.k
+        yield "rows-done", F.forall([(0, k), (0, F.width)], lambda r, c: self.cell(F, F.pre.cms(r, c), F.other_cms(r, c), L.cur.cms(r, c)))
+        yield "rows-rest", F.forall([(0, F.depth), (0, F.width)], lambda r, c: z3.Implies(r >= k, L.cur.cms(r, c) == F.pre.cms(r, c)))
+        yield "counters", z3.And(L.cur.n_added_records(0) == F.pre.n_added_records(0), L.cur.n_added_records(1) == F.pre.n_added_records(1))
+
+    def _inner(self, F, L):
+        j = L.k
+        row = L.var("row")
+        yield "row-range", z3.And(row >= 0, row < F.depth)
+        yield "rows-done", F.forall([(0, row), (0, F.width)], lambda r, c: self.cell(F, F.pre.cms(r, c), F.other_cms(r, c), L.cur.cms(r, c)))
+        yield "row-done", F.forall([(0, j)], lambda c: self.cell(F, F.pre.cms(row, c), F.other_cms(row, c), L.cur.cms(row, c)))
+        yield "row-rest", F.forall([(0, F.width)], lambda c: z3.Implies(c >= j, L.cur.cms(row, c) == F.pre.cms(row, c)))
+        yield "rows-rest", F.forall([(0, F.depth), (0, F.width)], lambda r, c: z3.Implies(r > row, L.cur.cms(r, c) == F.pre.cms(r, c)))
+        yield "counters", z3.And(L.cur.n_added_records(0) == F.pre.n_added_records(0), L.cur.n_added_records(1) == F.pre.n_added_records(1))
+
+    @property
+    def loops(self):
+        return {0: self._outer, 1: self._inner}
+
+
+@register
+class MergeLog16(_MergeLog):
+    name = "countmin._merge_log16"
+    ceiling = 65535
+
+
+@register
+class MergeLog8(_MergeLog):
+    name = "countmin._merge_log8"
+    ceiling = 255
